@@ -20,6 +20,7 @@ import (
 	"log/slog"
 	"net/http"
 	"slices"
+	"unicode/utf8"
 
 	"github.com/bartventer/httpcache/store/driver"
 )
@@ -119,11 +120,36 @@ func (r *responseCache) GetRefs(urlKey string) (ResponseRefs, error) {
 	// A corrupted index may decode to null members ("[null]"); a missing reference
 	// cannot be matched or followed, so it is dropped here once for all users.
 	refs = slices.DeleteFunc(refs, func(ref *ResponseRef) bool { return ref == nil })
+	for _, ref := range refs {
+		ref.ResponseID = fromJSONSafe(ref.ResponseID)
+	}
 	return refs, nil
 }
 
+// jsonSafeRefs returns refs with every response ID in a form that survives the JSON
+// encoding unchanged. A response ID contains the request's URI, whose query may hold
+// raw bytes that are not valid UTF-8; encoding/json would replace each of them with
+// U+FFFD, and the reference would then name the entry of a different URI.
+func jsonSafeRefs(refs ResponseRefs) ResponseRefs {
+	if !slices.ContainsFunc(refs, func(ref *ResponseRef) bool {
+		return ref != nil && !utf8.ValidString(ref.ResponseID)
+	}) {
+		return refs
+	}
+	safe := make(ResponseRefs, len(refs))
+	for i, ref := range refs {
+		if ref != nil {
+			c := *ref
+			c.ResponseID = jsonSafe(c.ResponseID)
+			ref = &c
+		}
+		safe[i] = ref
+	}
+	return safe
+}
+
 func (r *responseCache) SetRefs(urlKey string, refs ResponseRefs) error {
-	data, err := json.Marshal(refs)
+	data, err := json.Marshal(jsonSafeRefs(refs))
 	if err != nil {
 		return newCacheError(
 			err,
